@@ -143,12 +143,20 @@ class TcpSimResponder(_SimResponderBase):
         r = self.sim.handle(op)
         a = op["addr"]
         if r[0] == "read":
-            return rw.tcp_read_response(tx, a, r[1])
-        if r[0] == "write":
-            return rw.tcp_write_response(tx, a, r[1], r[2])
-        if r[0] == "write_multi":
-            return rw.tcp_write_multi_response(tx, a, r[1], r[2])
-        return rw.tcp_exception_response(tx, a, r[1], r[2])
+            out = rw.tcp_read_response(tx, a, r[1])
+        elif r[0] == "write":
+            out = rw.tcp_write_response(tx, a, r[1], r[2])
+        elif r[0] == "write_multi":
+            out = rw.tcp_write_multi_response(tx, a, r[1], r[2])
+        else:
+            out = rw.tcp_exception_response(tx, a, r[1], r[2])
+        if self.mbap_len is not None:
+            # GoodWe firmware quirk: the MBAP length field does not describe the frame (e.g. the request's value 6 is echoed);
+            # the library documents that it ignores the field
+            out = out[:4] + (self.mbap_len & 0xFFFF).to_bytes(2, "big") + out[6:]
+        return out
+
+    mbap_len = None
 
     def exception(self, data, code):
         return rw.tcp_exception_response(rw.be16(data, 0), data[6], data[7], code)
